@@ -223,6 +223,7 @@ def render_module(prog, mname):
 LOGMOD_SRC = '''"""non-accepted helper module of the generated pipelines"""
 LOG = []
 _EXC = {}
+_KIND = {}
 
 def log(tag):
     LOG.append(tag)
@@ -233,8 +234,38 @@ def apply(f):
 def make_exc(kind, tag):
     import builtins
     cls = {"Exception": Exception, "ValueError": ValueError, "KeyboardInterrupt": KeyboardInterrupt,
-           "SystemExit": SystemExit, "BaseException": BaseException}[kind]
-    e = cls("boom-" + tag)
+           "SystemExit": SystemExit, "BaseException": BaseException}.get(kind)
+    if cls is not None:
+        e = cls("boom-" + tag)
+    else:
+        # exceptions as the interpreter itself creates them (class, arguments and message are Python's own): a user function that
+        # miscalls a helper, reads a missing attribute / key / file, divides by zero, exhausts an iterator, decodes bad bytes
+        v = sum(map(ord, tag))
+        provoke = {
+            "TypeError/missing-argument": lambda: (lambda x, factor: x)(1),
+            "TypeError/unexpected-keyword": lambda: (lambda x: x)(1, scale=2),
+            "TypeError/multiple-values": lambda: (lambda x, y=0: x)(1, x=2),
+            "TypeError/too-many-positional": lambda: (lambda x: x)(1, 2),
+            "TypeError/not-callable": lambda: (3)(),
+            "TypeError/operand": lambda: "a" + 1,
+            "AttributeError": lambda: None.nothing,
+            "KeyError": lambda: {}["k-" + tag],
+            "IndexError": lambda: [][1],
+            "ZeroDivisionError": lambda: 1 / 0,
+            "StopIteration": lambda: next(iter(())),
+            "FileNotFoundError": lambda: open("/nonexistent-dir/" + tag),
+            "UnicodeDecodeError": lambda: b"\\xff".decode("utf-8"),
+            "NameError": lambda: eval("undefined_name_" + str(v % 3)),
+            "RecursionError": lambda: (lambda f: f(f))(lambda f: f(f)),
+        }[kind]
+        try:
+            provoke()
+            raise AssertionError("make_exc: nothing was raised for " + kind)
+        except BaseException as ex:  # noqa
+            if type(ex).__name__ != kind.split("/")[0]:
+                raise
+            e = ex.with_traceback(None)
+    _KIND[tag] = kind
     _EXC[tag] = e
     return e
 '''
